@@ -268,6 +268,10 @@ def operands(w, u):
     ops.append(('zero', z, {'k': 'arith', 't': 'int', 'w': None, 'null': True}))
     nv = w.mkexpr('EXPRCONST', ptrs['void'], None, u__constant__u=0)        # (void *)0: a null pointer constant of pointer type
     ops.append(('nullvoid', nv, {'k': 'ptr', 'pointee': 'void', 'type': ptrs['void'], 'null': True}))
+    nu = w.mkexpr('EXPRCAST', ptrs['void'], w.mkexpr('EXPRCONST', u['int'], None, u__constant__u=0))        # the same as the parser hands it over: a cast node, not yet folded
+    ops.append(('nullvoid_unfolded', nu, {'k': 'ptr', 'pointee': 'void', 'type': ptrs['void'], 'null': True}))
+    nc = w.mkexpr('EXPRCONST', ptrs['char'], None, u__constant__u=0)        # (char *)0: a null pointer, but NOT a null pointer constant (6.3.2.3p3): an ordinary char * operand
+    ops.append(('zero_as_charptr', nc, {'k': 'ptr', 'pointee': 'char', 'type': ptrs['char']}))
     sv = w.mkstruct(size=8, align=4)
     ops.append(('struct', w.temp(sv, 's'), {'k': 'struct'}))
     return ops
@@ -496,7 +500,7 @@ def rule_unary(chk, prog, tier):
                 except Terminal as t:
                     out[n] = 'error' if t.what == 'error' else 'terminal:' + t.what; continue
                 def strip(x):
-                    while EX.get(it.load(x.obj, ('kind',))) == 'EXPRCAST': x = it.load(x.obj, ('base',))
+                    while x.obj is not e_.obj and EX.get(it.load(x.obj, ('kind',))) == 'EXPRCAST': x = it.load(x.obj, ('base',))      # conversions put on the operand (which may itself be a cast)
                     return x
                 k = EX.get(it.load(res.obj, ('kind',)))
                 rt = name_of_type(names, it.load(res.obj, ('type',)))
@@ -1107,8 +1111,10 @@ def rule_qualified_arrays(chk, prog, tier):
     tc = prog.require_func('typecompatible', 'type.c')
     dc = prog.require_func('decay', 'expr.c')
     QC, QV = ev(prog, 'QUALCONST'), ev(prog, 'QUALVOLATILE')
-    for q, qn in ((QC, 'const'), (QV, 'volatile'), (QC | QV, 'const volatile')):
-        for depth in (2, 3):
+    QN = {0: '', QC: 'const ', QV: 'volatile ', QC | QV: 'const volatile '}
+    for q, pq in [(QC, 0), (QV, 0), (QC | QV, 0), (QV, QC), (QC, QV), (QC, QC)]:        # pq: qualifiers the element type of the typedef already has
+      qn = QN[q].strip()
+      for depth in (2, 3):
             for how in ('parameter', 'object'):
                 def runner(it):
                     w = World(prog, it=it, target='x86_64-sysv')
@@ -1117,14 +1123,14 @@ def rule_qualified_arrays(chk, prog, tier):
                         a = it.call('mkarraytype', [el, qual, n]); a.obj.f[('u', 'array', 'length')] = w.mkexpr('EXPRCONST', w.t('ulong'), u__constant__u=n); return a
                     dims = [4, 5, 6][:depth]
                     # typedef U T[4][5]([6])
-                    t = U
-                    for n in reversed(dims): t = arr(t, n)
+                    t = U; first = True
+                    for n in reversed(dims): t = arr(t, n, pq if first else 0); first = False
                     # the same with the qualifier written on the element: pointer to q U [5]([6])
                     el = U; first = True
-                    for n in reversed(dims[1:]): el = arr(el, n, q if first else 0); first = False
+                    for n in reversed(dims[1:]): el = arr(el, n, (q | pq) if first else 0); first = False
                     direct = w.mkptr(el, 0)
-                    plain = U; 
-                    for n in reversed(dims[1:]): plain = arr(plain, n)
+                    plain = U; first = True
+                    for n in reversed(dims[1:]): plain = arr(plain, n, pq if first and q | pq != pq else 0); first = False
                     unq = w.mkptr(plain, 0)
                     if how == 'parameter':
                         tq = Obj('tq', 'local'); tq.f[()] = q
@@ -1134,11 +1140,11 @@ def rule_qualified_arrays(chk, prog, tier):
                         got = it.load(it.call(dc, [x]).obj, ('type',))
                     return (bool(it.call(tc, [got, direct])), bool(it.call(tc, [direct, got])), bool(it.call(tc, [got, unq])), bool(it.call(tc, [unq, got])))
                 runs = explore(prog, runner, {}, max_runs=2, on_unsupported='keep')
-                key = 'qualified-array:%s %s of U[4][5]%s' % (qn, how, '[6]' if depth == 3 else '')
+                key = 'qualified-array:%s %s of %sU[4][5]%s' % (qn, how, QN[pq], '[6]' if depth == 3 else '')
                 if len(runs) != 1 or runs[0].outcome != 'return':
                     raise AnalysisBroken('%s: %s' % (key, [(x.outcome, x.detail) for x in runs][:2]))
                 r.instance(runs[0].value == (True, True, False, False), key, 'type.c:%s' % ta.get('line'),
-                           'must be compatible with `%s U (*)[5]...` (both orders) and not with `U (*)[5]...`; typecompatible says %s' % (qn, runs[0].value))
+                           'must be compatible with `%s U (*)[5]...` (both orders) and not with `%sU (*)[5]...`; typecompatible says %s' % (QN[q | pq].strip(), QN[pq] if q | pq != pq else '', runs[0].value))
     r.exhaustive = False
 
 
